@@ -1513,3 +1513,197 @@ def interpreted_hop_selection(repo, n_random=60, seed=11):
             return False, (f"hop targets {got} differ from the fewest-switches rule {want} for active states {act}, rates {[[str(x) for x in r] for r in rows]}, "
                            f"active populations {[str(x) for x in pa]}, draws {[str(x) for x in dr]} ({what})"), facts
     return True, "", facts
+
+
+# ------------------------------------------------------------------------------------------------------------------------------------------------
+# C02-R4: Euler-angle frames of the overlap / d-orbital rotation routines, decided by value on exact unit vectors (generic directions and both z poles)
+# ------------------------------------------------------------------------------------------------------------------------------------------------
+EULER_BUILDERS = (("seqm/seqm_functions/diat_overlap.py", "diatom_overlap_matrix"), ("seqm/seqm_functions/diat_overlapD.py", "diatom_overlap_matrixD"),
+                  ("seqm/seqm_functions/RotationMatrixD.py", "GenerateRotationMatrix"))
+
+
+def interpreted_euler_frames(repo):
+    """For every routine that builds the (azimuth, polar) direction cosines ca, sa, cb, sb of the bond vector, the statements up to the first use of the four quantities are
+    interpreted (sa.npsym) on exact unit vectors; the frame is correct iff (sb ca, sb sa, cb) is the bond vector again (so the local z axis is the bond) and (ca, sa) is a unit
+    vector (so the local x, y axes are orthonormal) -- on generic directions, in the xy plane, and at both z poles, where the azimuth is undefined and any fixed unit (ca, sa)
+    is acceptable.  Returns [(rel, qual, line, ok, message, n_vectors)]."""
+    import ast
+    import numpy as np
+    import sympy as sp
+    from .loader import AnalysisError, norm
+    from .npsym import NpSym, _Frame
+    R = sp.Rational
+    vectors = [(R(12, 25), R(16, 25), R(3, 5)), (R(-3, 13), R(4, 13), R(-12, 13)), (0, R(3, 5), R(4, 5)), (R(-4, 5), 0, R(-3, 5)), (1, 0, 0), (0, -1, 0), (R(3, 5), R(-4, 5), 0),
+               (0, 0, 1), (0, 0, -1)]
+    out = []
+    for rel, qual in EULER_BUILDERS:
+        if not repo.has(rel):
+            continue
+        m = repo.mod(rel)
+        if not m.has_func(qual):
+            raise AnalysisError(f"{rel}: frame builder {qual} not found")
+        f = m.func(qual)
+        roles = {"ca", "sa", "cb", "sb"}
+
+        def role_of(t):
+            b = t
+            while isinstance(b, ast.Subscript):
+                b = b.value
+            return b.id.lower() if isinstance(b, ast.Name) and b.id.lower() in roles else None
+
+        def defines_only_roles(st):
+            tg = st.targets if isinstance(st, ast.Assign) else [st.target] if isinstance(st, (ast.AugAssign, ast.AnnAssign)) else []
+            flat = []
+            for t in tg:
+                flat.extend(t.elts if isinstance(t, (ast.Tuple, ast.List)) else [t])
+            return bool(flat) and all(role_of(t) for t in flat)
+        xij = np.array([[sp.sympify(c) for c in v] for v in vectors], dtype=object)
+        par = [a.arg for a in f.args.args]
+        xname = next((p for p in par if p.lower() in ("xij", "x", "v", "vec")), None)
+        if xname is None:
+            raise AnalysisError(f"{qual}: bond-vector parameter not found among {par}")
+        I = NpSym(repo, stubs={"print": lambda *a, **k: None})
+        fr = _Frame(I, m, {xname: xij})
+        bound = {}
+        for st in f.body:
+            cur = {k.lower(): k for k in fr.env if k.lower() in roles}
+            if len(cur) == 4 and not defines_only_roles(st):
+                used = {n.id for n in ast.walk(st) if isinstance(n, ast.Name)}
+                if used & set(cur.values()):
+                    break
+            try:
+                fr.stmt(st)
+            except AnalysisError as e:
+                # statements that need the other (unprovided) arguments are skipped as long as they do not define the direction cosines
+                if defines_only_roles(st) or any(role_of(t) for t in (st.targets if isinstance(st, ast.Assign) else [])):
+                    raise AnalysisError(f"{qual}: `{norm(st)[:60]}` not interpretable: {e}")
+                continue
+        cur = {k.lower(): fr.env[k] for k in fr.env if k.lower() in roles}
+        if len(cur) != 4:
+            raise AnalysisError(f"{qual}: direction cosines ca, sa, cb, sb not all defined at the top level of the routine (found {sorted(cur)})")
+        ok, msg = True, ""
+        sign = None     # the routine may build the frame of the reversed bond (`xij = -xij`): one sign for all directions
+        for k, v in enumerate(vectors):
+            ca, sa, cb, sb = (sp.nsimplify(np.asarray(cur[r]).reshape(-1)[k]) for r in ("ca", "sa", "cb", "sb"))
+            x, y, z = (sp.sympify(c) for c in v)
+            if sign is None:
+                sign = -1 if all(sp.simplify(d) == 0 for d in (sb * ca + x, sb * sa + y, cb + z)) else 1
+            x, y, z = sign * x, sign * y, sign * z
+            if sp.simplify(ca ** 2 + sa ** 2 - 1) != 0:
+                ok, msg = False, (f"for the bond direction ({x}, {y}, {z}) the azimuth pair (ca, sa) = ({ca}, {sa}) is not a unit vector: the local x / y axes are not orthonormal there, "
+                                  f"pi-type overlaps and rotated integrals of such a bond are scaled or dropped and the energy is not rotation invariant")
+                break
+            if any(sp.simplify(d) != 0 for d in (sb * ca - x, sb * sa - y, cb - z)):
+                ok, msg = False, (f"for the bond direction ({x}, {y}, {z}) the frame's z axis (sb ca, sb sa, cb) = ({sb * ca}, {sb * sa}, {cb}) is not the bond direction")
+                break
+        out.append((rel, qual, f.lineno, ok, msg, len(vectors)))
+    return out
+
+
+def interpreted_xl_constructor(repo):
+    """XL_BOMD.__init__ interpreted (sa.npsym) for k = 2..10: {k: {m, kappa, alpha, coeff_D, coeff}} for every k the constructor accepts"""
+    import numpy as np
+    import sympy as sp
+    from .loader import AnalysisError
+    from .npsym import ClassRef, NpSym, Raised
+    md = repo.mod("seqm/MolecularDynamics.py")
+    out = {}
+    for k in range(2, 11):
+        I = NpSym(repo, stubs={"esdriver": lambda *a, **kw: types.SimpleNamespace(), "torch.nn.Parameter": lambda x, **kw: x})
+        I.construct_instances = True
+        try:
+            obj = I.construct(ClassRef(md, md.classes["XL_BOMD"]), [], {"damp": None, "xl_bomd_params": {"k": k}, "seqm_parameters": {"method": "AM1"}, "timestep": sp.Rational(1, 2),
+                                                                       "output": {"molid": [0], "h5": {}}})
+        except Raised:
+            continue
+        except AnalysisError as e:
+            if "missing" in str(e) and "key" in str(e):     # a row the table does not have
+                continue
+            raise
+        need = ("m", "coeff", "coeff_D")
+        if any(not hasattr(obj, a) for a in need):
+            raise AnalysisError(f"XL_BOMD.__init__ (k={k}) does not set {[a for a in need if not hasattr(obj, a)]}")
+        coeff = [sp.nsimplify(x) for x in np.asarray(obj.coeff).reshape(-1)]
+        out[k] = {"m": int(obj.m), "coeff": coeff, "coeff_D": sp.nsimplify(obj.coeff_D), "kappa": getattr(obj, "kappa", None), "alpha": getattr(obj, "alpha", None)}
+    if not out:
+        raise AnalysisError("XL_BOMD.__init__ could not be interpreted for any k")
+    return out
+
+
+# ------------------------------------------------------------------------------------------------------------------------------------------------
+# core-core parameter tuples handed to pair_nuclear_energy by the SCF energy and by the XL-BOMD energy (C06-R4, C09-R4): decided by value
+# ------------------------------------------------------------------------------------------------------------------------------------------------
+def slice_and_eval(I, mod, func, expr, env):
+    """value of expression `expr` of function `func`: the top-level statements of func (before the one containing expr) that define, directly or transitively, a name
+    expr reads are interpreted in order in `env`; then expr is evaluated"""
+    import ast
+    from .loader import AnalysisError
+    from .npsym import _Frame
+    host = None
+    for st in func.body:
+        if any(n is expr for n in ast.walk(st)):
+            host = st
+            break
+    if host is None:
+        raise AnalysisError("slice_and_eval: expression not at the top level of the function")
+    before = func.body[:func.body.index(host)]
+    needed = {n.id for n in ast.walk(expr) if isinstance(n, ast.Name)} - set(env)
+    chosen = []
+    for st in reversed(before):
+        stores = {n.id for n in ast.walk(st) if isinstance(n, ast.Name) and isinstance(n.ctx, ast.Store)}
+        if stores & needed:
+            chosen.append(st)
+            needed |= {n.id for n in ast.walk(st) if isinstance(n, ast.Name) and isinstance(n.ctx, ast.Load)} - set(env)
+    fr = _Frame(I, mod, dict(env))
+    fr.qual = next((q for q, n in mod.functions.items() if n is func), func.name)
+    fr.self_name = func.args.args[0].arg if func.args.args else None
+    for st in reversed(chosen):
+        try:
+            fr.stmt(st)
+        except AnalysisError:
+            # a chosen statement may also compute unrelated things from inputs the rule does not provide; what matters is whether expr can be evaluated afterwards
+            continue
+    return fr.ev(expr)
+
+
+def interpreted_core_parameters(repo):
+    """[(rel, qual, line, method, ok, message)] for the `parameters` argument of every pair_nuclear_energy call of the two energy drivers"""
+    import ast
+    import numpy as np
+    import sympy as sp
+    from .loader import AnalysisError, call_name, norm
+    from .npsym import Instance, NpSym
+    sites = (("seqm/basics.py", "Energy.forward", "Energy"), ("seqm/dynamics/xlbomd.py", "EnergyXL.forward", "EnergyXL"))
+    nat = 3
+    names = ["alpha"] + [f"Gaussian{i}_{x}" for i in range(1, 5) for x in "KLM"]
+    params = {n: np.array([sp.Symbol(f"{n}_{a}") for a in range(nat)], dtype=object) for n in names}
+    out = []
+    for rel, qual, cls in sites:
+        m = repo.mod(rel)
+        f = m.func(qual)
+        calls = [c for c in ast.walk(f) if isinstance(c, ast.Call) and (call_name(c) or "").split(".")[-1] == "pair_nuclear_energy"]
+        if len(calls) != 1:
+            raise AnalysisError(f"{qual}: {len(calls)} pair_nuclear_energy calls")
+        c = calls[0]
+        arg = next((k.value for k in c.keywords if k.arg == "parameters"), c.args[14] if len(c.args) > 14 else None)
+        if arg is None:
+            raise AnalysisError(f"{qual}: pair_nuclear_energy is called without its parameters argument")
+        # the statement holding the call must be a top-level statement of the driver for the slice; the call itself is replaced by its argument
+        for method, ng in (("MNDO", 0), ("AM1", 4), ("PM3", 2), ("PM6", 4), ("PM6_SP", 4)):
+            I = NpSym(repo)
+            selfobj = Instance(m, cls, method=method)
+            mol = types.SimpleNamespace(parameters=dict(params), method=method)
+            try:
+                val = slice_and_eval(I, m, f, arg, {f.args.args[0].arg: selfobj, f.args.args[1].arg: mol})
+            except AnalysisError as e:
+                raise AnalysisError(f"{qual}: core-core parameter tuple not interpretable for {method}: {e}")
+            val = tuple(val) if isinstance(val, (tuple, list)) else (val,)
+            want = (params["alpha"],) if ng == 0 else (params["alpha"],) + tuple(np.stack([params[f"Gaussian{i}_{x}"] for i in range(1, ng + 1)], axis=1) for x in "KLM")
+            ok = len(val) == len(want) and all(np.asarray(a).shape == np.asarray(b).shape and bool((np.asarray(a) == np.asarray(b)).all()) for a, b in zip(val, want))
+            msg = ""
+            if not ok:
+                shapes = [tuple(np.asarray(a).shape) for a in val]
+                msg = (f"{qual} hands pair_nuclear_energy a parameter tuple of shapes {shapes} for {method}; the published core-core term uses "
+                       f"{'alpha only' if ng == 0 else f'alpha and {ng} Gaussians (K, L, M of shape (atoms, {ng}), Gaussian1..{ng} in this order)'}")
+            out.append((rel, qual, c.lineno, method, ok, msg))
+    return out
